@@ -8,6 +8,7 @@
 
 #include <errno.h>
 #include <fcntl.h>
+#include <malloc.h>
 #include <pthread.h>
 #include <sched.h>
 #include <stdarg.h>
@@ -44,6 +45,7 @@ static int n_delays;
 
 static int live[VERIF_C_MAX];
 static int peak[VERIF_C_MAX];
+static long heap_mark;
 
 
 static void
@@ -286,6 +288,31 @@ verif_rel_take(void)
 
   my_rel = 0;
   return r;
+}
+
+
+/* Bytes the allocator has handed out (arena chunks in use + mmap()ed chunks). */
+static long
+heap_bytes(void)
+{
+  struct mallinfo2 mi = mallinfo2();
+
+  return (long)(mi.uordblks + mi.hblkhd);
+}
+
+void
+verif_heap_mark(void)
+{
+  heap_mark = heap_bytes();
+}
+
+/* Growth of the heap since verif_heap_mark(), in KiB (rounded up). */
+long
+verif_heap_kib(void)
+{
+  long d = heap_bytes() - heap_mark;
+
+  return d <= 0 ? 0 : (d + 1023) / 1024;
 }
 
 #else
